@@ -99,6 +99,18 @@ func runC14(c *Check) {
 					c.Decide(ok, "R1", "state.(*MemPool).AddRequest#have-means-body-present", ret.Pos(), "edge-cutset", w,
 						"alreadyHave=true only when the tx body is in the mempool", "AddRequest can answer alreadyHave=true for a tx that was only announced: it would never be requested")
 				}
+				if !aC {
+					// the answer of an expanded helper: a constant chosen on different paths
+					asrcs, _ := constSources(ret, a[0], 0)
+					for _, src := range asrcs {
+						if hv, isB := isConstBool(src.Val); isB && hv {
+							nH++
+							ok, w := mustPassAt(src, have)
+							c.Decide(ok, "R1", "state.(*MemPool).AddRequest#have-means-body-present", ret.Pos(), "edge-cutset", w,
+								"alreadyHave=true only when the tx body is in the mempool", "AddRequest can answer alreadyHave=true for a tx that was only announced: it would never be requested")
+						}
+					}
+				}
 				if aC && !av {
 					// the body-present test must have been evaluated if the txid was known
 					for _, b := range fn.Blocks {
@@ -345,6 +357,8 @@ func runC14(c *Check) {
 	c.ruleRequestAgeFromRequestTime("R15")
 	c.ruleFieldWriters("R16", "state", "MemPool", "requests", map[string]string{"state.(*MemPool).AddRequest": "request recorded / renewed", "state.(*MemPool).AddTransaction": "the tx arrived", "state.(*MemPool).removeTransaction": "the tx confirmed or was evicted", "state.NewMemPool": "created"}, "the entry is the request window of the tx: released from elsewhere (e.g. on any peer's notfound) a second peer is asked inside the window")
 	c.ruleTrackerScannedOnEveryCheck("R17")
+	c.whoMayCall("R18", "(*state.MemPool).RemoveTransaction", map[string]string{"spynode.(*Node).ProcessBlock": "a block tx leaves the mempool"}, 1)
+	c.ruleNoCallTo("R19", "TransactionExists", []string{"handlers"}, "see C07.R17")
 
 	// ---- R6 every filled getdata is transmitted
 	if fn := c.Fn("R6", "state.(*TxTracker).Check"); fn != nil {
